@@ -532,3 +532,133 @@ class _Concat(Contract):
 
     def frame_ok(self, I, inp, obj, name):
         return False
+
+
+CB = "sigma.conversion.base"
+
+
+@register
+class ConvertValueStr(Contract):
+    """the query literal of a string: SigmaString.convert is called with the backend's escape character and wildcard tokens, an escaped
+    set that contains every quote character and every additionally escaped character WHETHER OR NOT the value is quoted (an unquoted
+    value containing the quote character must not open a literal), and the filter characters; the result is quoted exactly when
+    decide_string_quoting says so"""
+    id = "C05.TextQueryBackend.convert_value_str"
+    target = f"{CB}:TextQueryBackend.convert_value_str"
+    props = ("C05", "C01")
+    assumed = ["SigmaString.convert by its own contract (C05.SigmaString.convert); decide_string_quoting is an arbitrary predicate of the value"]
+
+    def setup(self, E):
+        E.summaries[f"{CB}:TextQueryBackend.decide_string_quoting"] = lambda I, so, a, k: so.ghost["quote"]
+
+    def args(self, I):
+        cap = {}
+
+        def conv(I2, a, k):
+            cap["a"], cap["k"] = list(a), dict(k)
+            cap["r"] = I2.fresh("converted", "str")
+            return cap["r"]
+        s = SObj("SigmaStringArg", {"convert": NativeFn("convert", conv)})
+        f = {n: I.fresh(n, "str") for n in ("escape_char", "wildcard_multi", "wildcard_single", "str_quote", "add_escaped", "filter_chars")}
+        me = SObj(I.E.index.lookup(f"{CB}:TextQueryBackend"), dict(f), lazy=True)
+        me.ghost["quote"] = I.fresh("quote", "bool")
+        return {"self": me, "args": [s, I.fresh("state", "opaque", "State")], "cap": cap, "f": f}
+
+    def post(self, I, inp, r):
+        c, cap, f = I.ctx, inp["cap"], inp["f"]
+        ok = "a" in cap and len(cap["a"]) + len(cap["k"]) == 5
+        c.require(ok, "SigmaString.convert is called once with five arguments")
+        if not ok:
+            return
+        names = ["escape_char", "wildcard_multi", "wildcard_single", "add_escaped", "filter_chars"]
+        got = dict(zip(names, cap["a"]))
+        got.update(cap["k"])
+        for n in ("escape_char", "wildcard_multi", "wildcard_single", "filter_chars"):
+            c.require(got.get(n) is f[n], f"{n} of the backend is passed unchanged")
+        esc = got.get("add_escaped")
+        ch = z3.String("any_char")
+        okesc = isinstance(esc, (Sym, str))
+        c.require(okesc, "the escaped set is a string")
+        if okesc:
+            e = mk_str(esc)
+            c.require(z3.Implies(z3.And(z3.Length(ch) == 1, z3.Or(z3.Contains(f["str_quote"].t, ch), z3.Contains(f["add_escaped"].t, ch))), z3.Contains(e, ch)),
+                      "every quote character and every additionally escaped character is in the escaped set, quoted or not")
+            c.require(z3.Implies(z3.And(z3.Length(ch) == 1, z3.Contains(e, ch)), z3.Or(z3.Contains(f["str_quote"].t, ch), z3.Contains(f["add_escaped"].t, ch))),
+                      "nothing else is escaped")
+        conv = None
+        rr = mk_str(r) if isinstance(r, (Sym, str)) else None
+        c.require(rr is not None, "a string is returned")
+        if rr is not None:
+            cv = cap["r"].t
+            q = f["str_quote"].t
+            c.require(rr == z3.If(inp["self"].ghost["quote"].t, z3.Concat(q, cv, q), cv), "quoted exactly when decide_string_quoting(s): quote + converted + quote, otherwise converted")
+
+    def model_terms(self, inp):
+        return {"str_quote": inp["f"]["str_quote"].t, "add_escaped": inp["f"]["add_escaped"].t, "quote": inp["self"].ghost["quote"].t, "any_char": z3.String("any_char")}
+
+    def candidates(self):
+        return ({"str_quote": q, "add_escaped": a, "quote": qt, "any_char": ch} for q in ('"', "'") for a in ("", "\\", "$") for qt in (False, True) for ch in (q, a[:1] or "x"))
+
+    def replay(self, values):
+        """the real convert_value_str on a real backend configured from the counter-model, read back by the target's rules"""
+        import re as _re
+        from sigma.backends.test import TextQueryTestBackend
+        from sigma.types import SigmaString
+        q, add, quote, ch = values.get("str_quote") or '"', values.get("add_escaped") or "", bool(values.get("quote")), values.get("any_char") or "x"
+        if len(q) != 1 or any(c in "*?\\" for c in q + add + ch) or len(ch) != 1:
+            return None
+
+        class B(TextQueryTestBackend):
+            str_quote, add_escaped, escape_char, wildcard_multi, wildcard_single, filter_chars = q, add, "\\", "*", "?", ""
+            str_quote_pattern, str_quote_pattern_negation = _re.compile(".*" if quote else "(?!)"), False
+        text = "a" + ch + "b"
+        out = B().convert_value_str(SigmaString(text), None)
+        body = out[1:-1] if quote and len(out) >= 2 and out[0] == q and out[-1] == q else out
+        for special in q + add:      # a source character that is special in the target must be preceded by the escape character
+            i = body.find(special)
+            while i >= 0:
+                if i == 0 or body[i - 1] != "\\":
+                    return f"backend with str_quote {q!r}, add_escaped {add!r}, value {text!r} {'quoted' if quote else 'not quoted'}: rendered as {out!r} - the character {special!r} of the source is not escaped"
+                i = body.find(special, i + 1)
+        return None
+
+    def frame_ok(self, I, inp, obj, name):
+        return False
+
+
+@register
+class ConvertValueRe(Contract):
+    """the query form of a regular expression is SigmaRegularExpression.escape with the backend's escaped sequences, escape character,
+    escape-the-escape-character switch and flag-prefix switch, unchanged"""
+    id = "C05.TextQueryBackend.convert_value_re"
+    target = f"{CB}:TextQueryBackend.convert_value_re"
+    props = ("C05", "C01")
+    assumed = ["SigmaRegularExpression.escape: bounded stand-in C05.bounded.renderings (regex escaping) and guard contract C17"]
+
+    def args(self, I):
+        cap = {}
+
+        def esc(I2, a, k):
+            cap["a"], cap["k"] = list(a), dict(k)
+            cap["r"] = I2.fresh("escaped", "str")
+            return cap["r"]
+        rx = SObj("RegexArg", {"escape": NativeFn("escape", esc)})
+        f = {"re_escape": I.fresh("re_escape", "opaque", "StrTuple"), "re_escape_char": I.fresh("re_escape_char", "str"), "re_escape_escape_char": I.fresh("re_escape_escape_char", "bool"),
+             "re_flag_prefix": I.fresh("re_flag_prefix", "bool")}
+        me = SObj(I.E.index.lookup(f"{CB}:TextQueryBackend"), dict(f), lazy=True)
+        return {"self": me, "args": [rx, I.fresh("state", "opaque", "State")], "cap": cap, "f": f}
+
+    def post(self, I, inp, r):
+        c, cap, f = I.ctx, inp["cap"], inp["f"]
+        ok = "a" in cap
+        c.require(ok, "escape() is called")
+        if ok:
+            names = ["escaped", "escape_char", "escape_escape_char", "flag_prefix"]
+            got = dict(zip(names, cap["a"]))
+            got.update(cap["k"])
+            c.require(set(got) == set(names) and got["escaped"] is f["re_escape"] and got["escape_char"] is f["re_escape_char"] and got["escape_escape_char"] is f["re_escape_escape_char"]
+                      and got["flag_prefix"] is f["re_flag_prefix"], "re_escape, re_escape_char, re_escape_escape_char and re_flag_prefix are passed unchanged, in this order")
+            c.require(r is cap["r"], "the escaped text is returned unchanged")
+
+    def frame_ok(self, I, inp, obj, name):
+        return False
